@@ -212,6 +212,27 @@ class Builder:
                               extra_args=["--module-linken=%s" % ("true" if ml else "false"), "--list-defs-linken=%s" % ("true" if ll else "false")],
                               extra_objs=extra)
 
+    def probe_raw_objects(self, main, outdir):
+        """observation, not part of the property: the objects of two DDP modules compiled without any LLVM pass (-O 0,
+        modules separate) as kddp writes them, linked without the objcopy step. Returns the linker's complaint or ''"""
+        clo = import_closure(main, self.b.dir)
+        objs = []
+        for i, m in enumerate([main] + clo):
+            o = os.path.join(outdir, "raw%d.o" % i)
+            p = subprocess.run([self.b.kddp, "kompiliere", m, "-o", o, "-O", "0", "--module-linken=false", "--list-defs-linken=false"], capture_output=True, text=True, env=self.env, timeout=600)
+            if p.returncode != 0:
+                return "kddp: " + (p.stdout + p.stderr)[-300:]
+            if i:
+                subprocess.run(["objcopy", "-L", "ddp_ddpmain", o], capture_output=True, timeout=120)
+            objs.append(o)
+        L = self.b.lib
+        l = subprocess.run(["gcc"] + objs + [os.path.join(L, "main.o"), os.path.join(L, "shim.o"), "-Wl,--wrap=setlocale", "-Wl,--wrap=ddp_reallocate", self.listdefs, "-L" + L, "-lddpstdlib", "-lddpruntime", "-lm",
+                            "-o", os.path.join(outdir, "raw")], capture_output=True, text=True, timeout=300)
+        if l.returncode == 0:
+            return ""
+        m = re.search(r"multiple definition of `[^']*'", l.stderr)
+        return m.group(0) if m else l.stderr[-300:]
+
     def check_closure(self, obj, main, clo):
         """the init functions the separately compiled main object references must be exactly those of the parsed closure"""
         p = subprocess.run(["nm", "-u", obj], capture_output=True, text=True, timeout=60)
@@ -629,7 +650,8 @@ def arith_program(op, pair, form, inside):
         if two:
             e = re.sub(r"\bb\b", "(werte an der Stelle 2)", e)
         body = "Die %s werte ist eine Liste, die aus %s besteht.\nSchreibe (%s) auf eine Zeile.\n" % (lt, ", ".join("(%s)" % x for x in pair), e)
-    s += 'Schreibe "vor" auf eine Zeile.\n' + body + 'Schreibe "nach" auf eine Zeile.\n'
+    # nothing is printed before the operation: what an LLVM `undef` shows is whatever the argument register holds
+    s += body + 'Schreibe "nach" auf eine Zeile.\n'
     return Source("arith", {"prog.ddp": s}, "prog.ddp", meta=dict(op=op if not inside else "inside the domain (control)", instruction=op, operands=list(pair), form=form))
 
 
@@ -997,14 +1019,12 @@ def main():
     shp = [x for x in c08gen.shape_programs(rng) if usable(x[1])]
     if quick:
         rng.shuffle(mat)
-        # keep every aliasing shape family once per type where possible, and a slice of the matrix
-        seen, shp2 = set(), []
+        # at most two types per aliasing shape family, nine shape programs, a slice of the matrix
+        per_shape, shp2 = {}, []
         for m, p in shp:
-            k = (m["shape"], m["ty"])
-            if k not in seen and len(shp2) < 9 and m["shape"] not in {x[0] for x in seen if False}:
-                if sum(1 for x in seen if x[0] == m["shape"]) < 2:
-                    seen.add(k)
-                    shp2.append((m, p))
+            if per_shape.get(m["shape"], 0) < 2 and len(shp2) < 9:
+                per_shape[m["shape"]] = per_shape.get(m["shape"], 0) + 1
+                shp2.append((m, p))
         shp, mat = shp2, mat[:8]
     nrand = 8 if quick else 330
     g_all = c08gen.RandGen(rng)
@@ -1026,6 +1046,8 @@ def main():
         sources += [Source("duden", {"prog.ddp": t}, "prog.ddp", meta=dict(template=i)) for i, t in DudenGen(rng).every_template()]
     # (c2) multi-module programs
     sources += [multi_module(rng, i) for i in range(8 if quick else 100)]
+    # (e) arithmetic whose LLVM instruction is undefined for the operands (and controls inside the domain)
+    sources += src_arith(rng, 7 if quick else 64, 3 if quick else 56)
     # (d) upstream goldens
     gold, gskipped = goldens(os.path.join(sc, "testdata"))
     if quick:
@@ -1051,8 +1073,9 @@ def main():
     for (i, o), r in zip(jobs, results):
         per.setdefault(i, {}).update(r)
     # ---------------- judge
-    by_kind, classes, keys = {}, {}, {}
+    by_kind, classes, keys, plain_keys = {}, {}, {}, {}
     uncompilable = []
+    nondet_everywhere = {}
     n_diff_sources = 0
     for i, s in enumerate(sources):
         R = per[i]
@@ -1067,7 +1090,10 @@ def main():
         base = R[CONFIGS[0]]
         if base[0] != "build" and base[1]:
             ck.nontrivial(s.text())
+        if all(r[0] == "nondeterministic" for r in R.values()):
+            nondet_everywhere[s.label()] = nondet_everywhere.get(s.label(), 0) + 1
         vs = judge(rn, s, R)
+        plain_keys[i] = [k for k, _, _ in vs]
         if vs:
             n_diff_sources += 1
         for key, what, replay in vs:
@@ -1106,51 +1132,66 @@ def main():
         if "|" not in p:
             continue
         n_asan_diff += 1
-        if any(k.startswith("opt: O2 differs") for k, _, _ in judge(rn, s, per[i])) or p != "O0=O1|O2" or s.prog is None:
-            if p == "O0=O1|O2" and any(k.startswith("opt: O2 differs") for k, _, _ in judge(rn, s, per[i])):
-                continue    # already reported from the plain run
-        facts = facts_of(s)
-        tail = "source kind %s" % s.kind
+        if p == "O0=O1|O2" and any(k.startswith("opt: O2 differs from O0=O1") for k in plain_keys.get(i, ())):
+            continue    # already reported from the plain run
+        tail = "[%s]" % s.label()
         extra = {}
         if s.prog is not None and p == "O0=O1|O2":
+            facts = facts_of(s)
             de = (src_c08 if s.kind == "c08gen" else src_c08_split)(s.meta, c08gen.deelide(s.prog))
             D = rn.run_level(de, 2, links=((True, True),), asan=True)
             removed = D[(2, True, True)][0] != "build" and same(D[(2, True, True)], A[(0, True, True)])
             tail = "%s aliasing facts %s; removed by deelide: %s" % (s.kind, ",".join(facts) if facts else "none", "yes" if removed else "no")
             extra = dict(aliasing_facts=facts, deelided_O2=brief(D[(2, True, True)]))
-        key = ("opt: O2 differs from O0=O1; " + tail) if p == "O0=O1|O2" else "opt: sanitizer flavour partitions the levels as %s; %s" % (p, tail)
-        ck.violation(key, "sanitizer flavour (runtime and stdlib built with -fsanitize=address): levels %s; -O 0 %r, -O 2 %r" % (p, brief(A[(0, True, True)])[:2], brief(A[(2, True, True)])[::2]),
+        key = ("opt: O2 differs from O0=O1; " + tail) if p == "O0=O1|O2" else "opt: sanitizer flavour, levels %s %s" % (p, tail)
+        ck.violation(key, "sanitizer flavour (runtime and stdlib built with -fsanitize=address, leak check on): levels %s; -O 0 %r, -O 2 %r" % (p, brief(A[(0, True, True)])[::2], brief(A[(2, True, True)])[::2]),
                      dict(files=s.replay_files(), kind=s.kind, meta=s.meta, asan=True, outcomes={"O%d" % o: brief(A[(o, True, True)]) for o in OPTS}, **extra))
         keys[key] = keys.get(key, 0) + 1
     ck.count(rn.runs)
+    # ---------------- observation outside the property: objects of two DDP modules as kddp writes them at -O 0
+    raw_probe = "not run"
+    first = next((s for s in sources if s.kind == "c08gen" and s.path), None)
+    if first is not None:
+        try:
+            raw_probe = rn.bu.probe_raw_objects(first.path, rn.outdir()) or "links"
+        except Exception as ex:
+            raw_probe = "probe failed: %r" % ex
     # ---------------- evidence
     nsrc = len(sources) - len(uncompilable)
     ck.cov.update(dict(
         sources=nsrc, by_kind=by_kind, configurations=[cfg_name(c) for c in CONFIGS], executable_runs=rn.runs, outcome_classes=classes, sources_with_a_difference=n_diff_sources,
         keys=keys, dropped=dropped, goldens_total=gold_all, goldens_used=sum(1 for s in sources if s.kind == "golden") - len(uncompilable), goldens_skipped=gskipped,
         goldens_not_compilable_in_this_sandbox=uncompilable, sanitizer_sources=len(asan_pool), sanitizer_level_differences=n_asan_diff, build_counters=rn.bu.cpu, recipes=recipe_text(b),
-        rule="evaluations = executable runs (source x configuration; plus sanitizer-flavour runs and attribution/shrink re-runs); distinct_nontrivial = distinct source texts that built and whose baseline run (O0, everything linked) printed something; every source prints the state it mutates",
+        nondeterministic_in_every_configuration=nondet_everywhere, raw_O0_separate_objects_link=raw_probe,
+        rule="evaluations = executable runs (source x configuration, each executable twice; plus sanitizer-flavour runs and attribution/shrink re-runs); distinct_nontrivial = distinct source texts that built and whose baseline run (O0, everything linked) printed something; every source prints the state it mutates",
         distribution="(a) c08gen: construct x mutation x type matrix, aliasing shapes, random programs (2-4 globals, 1-3 functions, value/Referenz parameters, aliasing bias 0.5-0.6), without the programs whose reference run flags S or D; "
                      "(b) straight-line programs of 12-28 statements drawn uniformly from %d call templates over Duden/Listen, Texte, Mathe, Zahlen with random literals (thorough: plus one program per template); "
                      "(c) c08gen programs cut into main + module, and main + 2 own modules (public Kombination, globals, functions with Referenz parameters; selective or whole import; second module importing the first in half of them); "
-                     "(d) upstream goldens of tests/testdata/{kddp,stdlib}" % len(DudenGen(rng).templates()),
+                     "(d) upstream goldens of tests/testdata/{kddp,stdlib}; "
+                     "(e) one arithmetic operation per program whose LLVM instruction (srem, shl, lshr, fptosi) is undefined or poison for the operands, operands as literals / globals / parameters / list elements, and the same operations inside their domain as controls"
+                     % len(DudenGen(rng).templates()),
         excluded="c08gen programs whose value-semantics reference run flags S (assignment of a variable to itself through aliases) or D (Referenz to a part of a variable whose container the callee replaces): undefined at every level (C08 findings), they crash nondeterministically; goldens that read stdin/argv/clock/random/file system/environment or need pcre2/libarchive"))
     ck.sample(dict(kind="c08gen", configurations=12, expected="identical (class, stdout, exit status/error message) in all of them"))
     for s in sources:
-        if s.kind in ("modules", "duden") and len(ck.cov["samples"]) < 4:
-            ck.sample(dict(kind=s.kind, meta=s.meta, main=s.files[s.main][:400]))
+        if s.kind in ("modules", "duden", "arith") and s.kind not in [x.get("kind") for x in ck.cov["samples"]]:
+            ck.sample(dict(kind=s.kind, meta=s.meta, main=s.files[s.main][-400:]))
     ck.finish(explanation=(
-        "level other/partial. PROVED (Coq, coq/Props/C11.v): which definition a symbol reference resolves to does not depend on the linking mode (imported modules merged into one LLVM module or left as separate "
-        "objects; list runtime functions defined in the program object or only declared there and defined in ddp_list_types_defs.o), for every program in which mangled names are injective per (module, name) (C10's "
-        "mangle_distinct, a hypothesis here) and the prebuilt list definitions are the definitions the compiler would link in; without injectivity resolution can differ (refutation theorem). The compiler's own -O 2 "
-        "transformation (parameter-copy elision, compiler.go:2059-2067, 435-448, const_func_param.go) is C08's model: C11_O2_elision_refuted re-exports the witness that the elided run differs from the copying run "
-        "(what -O 0/-O 1 emit); this check rediscovers that defect as the known finding. ONLY DIFFERENTIALLY TESTED: LLVM's pass pipeline (llvm_bindings.go:63-94: instcombine, loop-deletion, loop-unroll, "
-        "strip-dead-prototypes, mem2reg, adce, argpromotion, simplifycfg, constmerge, deadargelim, dse, inline, function-attrs, globaldce, globalopt, indvars), the IR linker, the code generator, gcc/ld. "
-        "Observation: in the modules-linked path optimizeModule runs regardless of -O (interface.go:259), so '-O 0 modules-linked' already runs the LLVM passes while '-O 0 modules-separate' does not (interface.go:185); "
-        "the -O 2 annotator is given to the parser of the main module only (interface.go:64-77, parser.go:285-291 passes no Annotators to imported modules), so in modules-linked mode functions of imported modules "
-        "keep their parameter copies at -O 2, while a module compiled separately is a main module of its own and gets the elision. Configuration modules-separate/listdefs-linked: kddp emits strong definitions of "
-        "the list functions into every object compiled with --list-defs-linken=true, so only the main object is compiled that way and the module objects carry declarations. kddp itself never compiles or links "
-        "imported modules in the modules-separate mode (linker/link.go only adds external .c/.o/.a dependencies); the check does it with the same flags."))
+        "level other/partial. PROVED (Coq, coq/Props/C11.v): which definition a symbol reference is bound to does not depend on the linking mode (imported modules merged into one LLVM module or left as separate "
+        "objects; list runtime functions defined in the program object or only declared there and defined in ddp_list_types_defs.o), for every program in which symbol names are injective per (module, name) (C10's "
+        "mangled_distinct; a hypothesis here, derived from an injective mangling function in C11_wf_of_injective_mangling) and the prebuilt list definitions are the ones the compiler would link in; both tools accept "
+        "such a program in every mode and the order in which the modules reach the IR linker (a Go map iteration) is irrelevant; without either hypothesis resolution can differ (two refutation theorems). The compiler's "
+        "own -O 2 transformation (parameter-copy elision, compiler.go:2059-2067, 435-448, const_func_param.go) is C08's model: C11_O2_elision_refuted re-exports the witness that the elided run differs from the copying "
+        "run (what -O 0/-O 1 emit); this check rediscovers that defect as a known finding. ONLY DIFFERENTIALLY TESTED: LLVM's pass pipeline (llvm_bindings.go:63-94: instcombine, loop-deletion, loop-unroll, "
+        "strip-dead-prototypes, mem2reg, adce, argpromotion, simplifycfg, constmerge, deadargelim, dse, inline, function-attrs, globaldce, globalopt, indvars), the IR linker, the code generator, objcopy, gcc/ld. "
+        "Observations: (1) in the modules-linked path optimizeModule runs regardless of -O (interface.go:259), so '-O 0 modules-linked' already runs the LLVM passes while '-O 0 modules-separate' runs none "
+        "(interface.go:185): the only configurations in which the emitted IR is executed as written are O0/modules-separate/*. (2) The -O 2 annotator visits the imported modules too (parser/interface.go:89-92 "
+        "VisitModuleRec), so call sites in the main module and the separately compiled callee agree about elided copies. (3) Configuration modules-separate/listdefs-linked: kddp emits strong definitions of the list "
+        "functions into every object compiled with --list-defs-linken=true, so only the main object is compiled that way and the module objects carry declarations. (4) kddp itself never compiles or links imported "
+        "modules in the modules-separate mode (linker/link.go only adds external .c/.o/.a dependencies); the check does it with the same flags and makes every module object's ddp_ddpmain local. (5) Objects written "
+        "at -O 0 without module linking export their anonymous string constants as global symbols __unnamed_N (compiler.go:796: external linkage, no name; no pass internalises them), so two such objects do not link "
+        "as written (field raw_O0_separate_objects_link); the check makes them local with objcopy, which is what the IR linker does when it merges modules. (6) Each executable is run twice; output that changes "
+        "from run to run (address-derived garbage: LLVM undef/poison, freed storage) is the class 'nondeterministic', equal only to itself; sources that are nondeterministic in all 12 configurations are listed in "
+        "nondeterministic_in_every_configuration (no C11 difference, but undefined behaviour of the language construct at every level)."))
 
 
 if __name__ == "__main__":
